@@ -13,9 +13,12 @@ def check_case(ctx, cs):
     ctx.full = cs
     sh0, hist, exp = cs["sh0"], cs["hist"], cs["obj"]
     st = hist[-1]
-    if st["a"] != "remove":
+    if st["a"] not in ("remove", "remove_multi"):
         return False
-    tg = tags_of(sh0) + ["after_" + hist[0]["a"], "dir=" + "uvw"[st["d"] - 1], "r=%d" % st["r"], "deg=%d" % sh0["deg"][st["d"] - 1]]
+    if st["a"] == "remove":
+        tg = tags_of(sh0) + ["after_" + hist[0]["a"], "dir=" + "uvw"[st["d"] - 1], "r=%d" % st["r"], "deg=%d" % sh0["deg"][st["d"] - 1]]
+    else:
+        tg = tags_of(sh0) + ["after_" + hist[0]["a"], "multi_direction", "dirs=" + "".join("uvw"[d] for d, p in enumerate(st["prm"]) if p != [])]
     small = {"deg": sh0["deg"], "kv": sh0["kv"], "rat": sh0["rat"], "hist": hist}
     ctx.count(c04.hist_key(cs), sample={"sh0": {k: sh0[k] for k in ("deg", "kv", "size", "rat")}, "hist": hist, "expected_kv": exp["kv"]})
     for via in ("operations", "method"):
